@@ -78,7 +78,7 @@ def random_lex(rng):
     maybe("blank", [0, 2])
     maybe("ns", ["vector"])
     for k in ("num.scale", "num.limit", "num.attr"):
-        maybe(k, ["expE", "expe", "plus", "tz"], 0.5)
+        maybe(k, ["expE", "expe", "plus", "tz", "nz"], 0.5)
     for k in ORDERS:
         maybe("order." + k, ["rev", "shuf"], 0.3)
     maybe("mulsep", [","])
@@ -116,6 +116,35 @@ def render(desc, lex=None, encoding="iso-8859-1"):
     def can_id(fr):
         return fr["id"] | 0x80000000 if fr["extended"] else fr["id"]
 
+    # ---- names beyond 32 characters: written under a unique 32-character symbol everywhere, the long name goes into the
+    #      System{Node,Message,Signal}LongSymbol attribute (what CANdb++ does) ----
+    def symbols(names):
+        out, used = {}, set(n for n in names if len(n) <= 32)
+        for n in names:
+            if len(n) <= 32:
+                out[n] = n
+                continue
+            sym, i = n[:32], 0
+            while sym in used:
+                sym = n[:27] + "_%04d" % i
+                i += 1
+            used.add(sym)
+            out[n] = sym
+        return out
+    esym = symbols([e["name"] for e in desc["ecus"]])
+    fsym = symbols([fr["name"] for fr in desc["frames"]])
+    ssym = {fr["name"]: symbols([sg["name"] for sg in fr["signals"]]) for fr in desc["frames"]}
+    long_attrs = []        # (keyword, attribute name, address text, long name)
+    for e in desc["ecus"]:
+        if esym[e["name"]] != e["name"]:
+            long_attrs.append(("BU_", "SystemNodeLongSymbol", esym[e["name"]], e["name"]))
+    for fr in desc["frames"]:
+        if fsym[fr["name"]] != fr["name"]:
+            long_attrs.append(("BO_", "SystemMessageLongSymbol", str(can_id(fr)), fr["name"]))
+        for sg in fr["signals"]:
+            if ssym[fr["name"]][sg["name"]] != sg["name"]:
+                long_attrs.append(("SG_", "SystemSignalLongSymbol", str(can_id(fr)) + "\0" + ssym[fr["name"]][sg["name"]], sg["name"]))
+
     section(['VERSION "written by the C15 independent writer"'])
     if lx["ns"] == "vector":
         section(["NS_ :"] + ["\t" + k for k in NS_LIST])
@@ -123,7 +152,7 @@ def render(desc, lex=None, encoding="iso-8859-1"):
         section(["NS_ :"])
     section(["BS_:"])
     s = sp("BU_")
-    section(["BU_:" + "".join(s + e["name"] for e in desc["ecus"])])
+    section(["BU_:" + "".join(s + esym[e["name"]] for e in desc["ecus"])])
 
     # ---- global value tables ----
     s = sp("VAL_TABLE_")
@@ -133,9 +162,9 @@ def render(desc, lex=None, encoding="iso-8859-1"):
     # ---- messages ----
     for fr in order("BO_", desc["frames"]):
         s = sp("BO_")
-        tx = fr["senders"][0] if (fr["senders"] and lx["txfirst"]) else "Vector__XXX"
+        tx = esym[fr["senders"][0]] if (fr["senders"] and lx["txfirst"]) else "Vector__XXX"
         colon = {"tight": ":" + s, "spaced": " :" + s, "none": ":", "left": " :"}[lx["colon"]]
-        ls = ["BO_" + s + str(can_id(fr)) + s + fr["name"] + colon + str(fr["length"]) + s + tx]
+        ls = ["BO_" + s + str(can_id(fr)) + s + fsym[fr["name"]] + colon + str(fr["length"]) + s + tx]
         s = sp("SG_")
         for sg in order("SG_", fr["signals"]):
             m = ""
@@ -146,11 +175,12 @@ def render(desc, lex=None, encoding="iso-8859-1"):
                     m = s + "m%d" % sg["mux"]["selector"]
             bo = "1" if sg["byte_order"] == "intel" else "0"
             sign = "-" if sg["type"] == "signed" else "+"
-            rec = lx["recvsep"].join(sg["receivers"]) if sg["receivers"] else "Vector__XXX"
+            rec = lx["recvsep"].join(esym[r] for r in sg["receivers"]) if sg["receivers"] else "Vector__XXX"
+            sy = ssym[fr["name"]]
             colon = lx["sg.colon"] if lx["sg.colon"] != " : " else s + ":" + s
             s_paren = s if lx["sg.paren"] is None else " " * lx["sg.paren"]
             s_brack = s if lx["sg.bracket"] is None else " " * lx["sg.bracket"]
-            ls.append(lx["indent"] + "SG_" + s + sg["name"] + m + colon + "%d|%d@%s%s" % (sg["start"], sg["width"], bo, sign) + s_paren
+            ls.append(lx["indent"] + "SG_" + s + sy[sg["name"]] + m + colon + "%d|%d@%s%s" % (sg["start"], sg["width"], bo, sign) + s_paren
                       + "(" + render_number(sg["factor"], lx["num.scale"]) + "," + lx["sg.comma"] + render_number(sg["offset"], lx["num.scale"]) + ")" + s_brack
                       + "[" + render_number(sg["min"], lx["num.limit"]) + "|" + render_number(sg["max"], lx["num.limit"]) + "]" + s
                       + '"' + sg["unit"] + '"' + s + rec)
@@ -163,7 +193,7 @@ def render(desc, lex=None, encoding="iso-8859-1"):
         need = len(fr["senders"]) > 1 or (fr["senders"] and not lx["txfirst"])
         if need:
             colon = lx["tx.colon"] if lx["tx.colon"] != " : " else s + ":" + s
-            ls.append("BO_TX_BU_" + s + str(can_id(fr)) + colon + lx["txsep"].join(fr["senders"]) + semi)
+            ls.append("BO_TX_BU_" + s + str(can_id(fr)) + colon + lx["txsep"].join(esym[x] for x in fr["senders"]) + semi)
     section(ls)
 
     # ---- comments ----
@@ -171,13 +201,13 @@ def render(desc, lex=None, encoding="iso-8859-1"):
     cms = []
     for e in desc["ecus"]:
         if e.get("comment"):
-            cms.append("CM_" + s + "BU_" + s + e["name"] + s + '"' + e["comment"] + '"' + semi)
+            cms.append("CM_" + s + "BU_" + s + esym[e["name"]] + s + '"' + e["comment"] + '"' + semi)
     for fr in desc["frames"]:
-        if fr.get("comment"):
+        if fr.get("comment") is not None:
             cms.append("CM_" + s + "BO_" + s + str(can_id(fr)) + s + '"' + fr["comment"] + '"' + semi)
         for sg in fr["signals"]:
-            if sg.get("comment"):
-                cms.append("CM_" + s + "SG_" + s + str(can_id(fr)) + s + sg["name"] + s + '"' + sg["comment"] + '"' + semi)
+            if sg.get("comment") is not None:
+                cms.append("CM_" + s + "SG_" + s + str(can_id(fr)) + s + ssym[fr["name"]][sg["name"]] + s + '"' + sg["comment"] + '"' + semi)
     ls = []
     for c in order("CM_", cms):
         parts = c.split("\n")
@@ -199,9 +229,14 @@ def render(desc, lex=None, encoding="iso-8859-1"):
         else:
             body = "ENUM" + s + lx["enumsep"].join('"' + v + '"' for v in d["values"])
         ls.append(head + body + semi)
+    for kw, an in (("BU_", "SystemNodeLongSymbol"), ("BO_", "SystemMessageLongSymbol"), ("SG_", "SystemSignalLongSymbol")):
+        if any(a[1] == an for a in long_attrs):
+            ls.append("BA_DEF_" + s + kw + s + '"' + an + '"' + s + "STRING" + semi)
     section(order("BA_DEF_", ls))
     s = sp("BA_DEF_DEF_")
     ls = []
+    for an in sorted({a[1] for a in long_attrs}):
+        ls.append("BA_DEF_DEF_" + s + '"' + an + '"' + s + '""' + semi)
     for d in desc["attr_defs"]:
         if d.get("default") is None:
             continue
@@ -228,17 +263,19 @@ def render(desc, lex=None, encoding="iso-8859-1"):
         return '"' + v + '"'
     s = sp("BA_")
     ls = []
+    for kw, an, addr, long_name in long_attrs:
+        ls.append("BA_" + s + '"' + an + '"' + s + kw + s + addr.replace("\0", s) + s + '"' + long_name + '"' + semi)
     for k, v in desc["net_attributes"].items():
         ls.append("BA_" + s + '"' + k + '"' + s + val(k, v) + semi)
     for e in desc["ecus"]:
         for k, v in e.get("attributes", {}).items():
-            ls.append("BA_" + s + '"' + k + '"' + s + "BU_" + s + e["name"] + s + val(k, v) + semi)
+            ls.append("BA_" + s + '"' + k + '"' + s + "BU_" + s + esym[e["name"]] + s + val(k, v) + semi)
     for fr in desc["frames"]:
         for k, v in fr["attributes"].items():
             ls.append("BA_" + s + '"' + k + '"' + s + "BO_" + s + str(can_id(fr)) + s + val(k, v) + semi)
         for sg in fr["signals"]:
             for k, v in sg["attributes"].items():
-                ls.append("BA_" + s + '"' + k + '"' + s + "SG_" + s + str(can_id(fr)) + s + sg["name"] + s + val(k, v) + semi)
+                ls.append("BA_" + s + '"' + k + '"' + s + "SG_" + s + str(can_id(fr)) + s + ssym[fr["name"]][sg["name"]] + s + val(k, v) + semi)
     section(order("BA_", ls))
 
     # ---- value descriptions ----
@@ -248,7 +285,7 @@ def render(desc, lex=None, encoding="iso-8859-1"):
         for sg in fr["signals"]:
             if sg["values"]:
                 pairs = sorted(sg["values"].items(), reverse=True)      # CANdb++ lists descending
-                ls.append("VAL_" + s + str(can_id(fr)) + s + sg["name"] + "".join(s + str(k) + s + '"' + l + '"' for k, l in pairs) + semi)
+                ls.append("VAL_" + s + str(can_id(fr)) + s + ssym[fr["name"]][sg["name"]] + "".join(s + str(k) + s + '"' + l + '"' for k, l in pairs) + semi)
     section(order("VAL_", ls))
 
     # ---- signal groups, float types, extended multiplexing ----
@@ -259,7 +296,7 @@ def render(desc, lex=None, encoding="iso-8859-1"):
             colon = {" : ": s + ":", ": ": ":", ":": ":", " :": s + ":"}[lx["grp.colon"]]
             first = "" if lx["grp.colon"] in (":", " :") else s
             ls.append("SIG_GROUP_" + s + str(can_id(fr)) + s + g["name"] + s + str(g["repetitions"]) + colon
-                      + first + s.join(g["signals"]) + semi)
+                      + first + s.join(ssym[fr["name"]][n] for n in g["signals"]) + semi)
     section(ls)
     s = sp("SIG_VALTYPE_")
     ls = []
@@ -267,14 +304,14 @@ def render(desc, lex=None, encoding="iso-8859-1"):
         for sg in fr["signals"]:
             if sg["type"] == "float":
                 colon = lx["vt.colon"] if lx["vt.colon"] != " : " else s + ":" + s
-                ls.append("SIG_VALTYPE_" + s + str(can_id(fr)) + s + sg["name"] + colon + ("1" if sg["width"] == 32 else "2") + semi)
+                ls.append("SIG_VALTYPE_" + s + str(can_id(fr)) + s + ssym[fr["name"]][sg["name"]] + colon + ("1" if sg["width"] == 32 else "2") + semi)
     section(ls)
     s = sp("SG_MUL_VAL_")
     ls = []
     for fr in desc["frames"]:
         for sg in fr["signals"]:
             if sg["mux"] and sg["mux"]["role"] == "muxed" and sg["mux"].get("ranges"):
-                ls.append("SG_MUL_VAL_" + s + str(can_id(fr)) + s + sg["name"] + s + sg["mux"]["muxer"] + s
+                ls.append("SG_MUL_VAL_" + s + str(can_id(fr)) + s + ssym[fr["name"]][sg["name"]] + s + ssym[fr["name"]][sg["mux"]["muxer"]] + s
                           + lx["mulsep"].join(("%d" + lx["muldash"] + "%d") % r for r in sg["mux"]["ranges"]) + semi)
     section(order("SG_MUL_VAL_", ls))
 
